@@ -937,6 +937,12 @@ macro_rules! rel_vec {
             }
             let d: $S = 1e-3;
             $o.emit(json!({"k": "rel", "op": "move_towards", "f": $fm, "ty": ty, "a": wv(&a), "b": wv(&b), "d": w(d), "got": wv(&a.move_towards(b, d))}));
+            // arrivals from afar (the difference b - a is not exact there, so a + (b - a) is not b): the target ITSELF must come back
+            for far in [37.7 as $S, 1234.5, 0.0123] {
+                let bf = a + dir / dl * far + $V::splat(0.3337);
+                let df = a.distance(bf) * 1.5;
+                $o.emit(json!({"k": "rel", "op": "move_towards", "f": $fm, "ty": ty, "sp": "arrival from afar", "a": wv(&a), "b": wv(&bf), "d": w(df), "got": wv(&a.move_towards(bf, df))}));
+            }
         }
         rel_vec!(@rot $rot, $o, $r, $V, $S, $n, is32, $fm, w, wv, ro, ty);
     }};
